@@ -9,16 +9,19 @@ META = {
                   "residual and the box-QP solver as universally quantified parameters + refutation of the same statement at binary64 by vm_compute + oracle-trace replay: the real "
                   "minimize.py (imported by path) runs with an instrumented residual and a wrapped mju_boxQP, the recorded solver answers drive the model at binary64 inside Coq, which "
                   "must reproduce status, candidates, evaluation points, objectives and mu values"),
-    "text": ("The model has a switch clipcand (false: candidate x + D*dx used as is, the pinned source; true: clipped to the bounds before the residual is evaluated); the check reads the "
-             "statements between `xnew = x + D * dx` and `rnew = residual(xnew)` from the source (fail-closed) to choose it. "
+    "text": ("The model has a switch clipcand (true: the candidate x + D*dx is clipped to the bounds before the residual is evaluated - the source since the repair of the rounding defect; "
+             "false: candidate used as is - the former source); the check reads the statements between `xnew = x + D * dx` and `rnew = residual(xnew)` from the source (fail-closed) and "
+             "requires the clipped form. "
              "Proved in Coq over the real numbers (Props/C46.v), for both values of the switch, for EVERY residual function, every box-QP solver that honours its contract (answer within [dlower, dupper] and not an ascent "
              "direction, g.dx <= 0), every valid box with hi - lo >= 2 eps max(1,|lo|,|hi|), every positive scaling (x_scale array or 'jac'), every start point, all parameter values and every "
              "max_iter: every point at which the residual is evaluated (clipped start, finite-difference points, all candidates) and the returned point lie inside the box (C46_in_bounds); the trace "
              "is non-empty with non-increasing objectives, starts at the objective of the clipped start and ends with the returned point, whose objective is no larger (C46_monotone); the Armijo "
              "search ends within K+2 solver calls when mu_min mu_factor^K >= mu_max and the outer loop appends at most max_iter+1 logs (C46_terminates). "
-             "The same in-bounds statement read at binary64 is refuted by computation (C46_float_refuted, C46_float_witness_values): box [-1.3, 0.9], x0 = 0.4, r(x) = x + 5 gives the candidate "
-             "x + D*dx = -1.3000000000000003 < lo although dx >= dlower (with clipcand = true the same problem stays inside: C46_float_witness_repaired). The witness is replayed on the real minimize.py on every run; when it reproduces the check reports the implementation "
-             "violation (signature site=least_squares class=candidate_outside_bounds_by_rounding) - IEEE rounding is otherwise outside every theorem. "
+             "For the explicitly UNCLIPPED variant the same in-bounds statement read at binary64 is refuted by computation (C46_float_unclipped_refuted, C46_float_unclipped_witness_values): box [-1.3, 0.9], "
+             "x0 = 0.4, r(x) = x + 5 gives the candidate x + D*dx = -1.3000000000000003 < lo although dx >= dlower; in the clipped model the same problem stays inside at binary64 "
+             "(C46_float_clipped_witness_in_bounds). That problem is run on the real minimize.py on every run, and every residual evaluation point and returned point of every run must lie "
+             "inside the box EXACTLY (no tolerance); an unclipped source is reported as an implementation violation (signature site=least_squares class=candidate_outside_bounds_by_rounding). "
+             "IEEE rounding is otherwise outside the theorems over R. "
              "Tied by oracle-trace replay (not proved): on the generated problems of the run (linear, quadratic and Rosenbrock-like residuals, n <= 4, x_scale None / array / 'jac', starts inside "
              "and outside the box) the model at binary64, fed with the recorded mju_boxQP answers, reproduces the status, every evaluation point, the trace (candidate, objective, reduction, mu) and "
              "the number of solver calls, and passes to the solver the same H, g, dlower, dupper (2^-30 scaled); runs in which a discrete decision (sign of the Armijo quantity or of the expected reduction, "
@@ -30,7 +33,7 @@ META = {
     "note": ("Trusted: Coq kernel + std-lib real-number axioms; primitive floats of Coq (PrimFloat) for the refutation and the replay; hand-written model Model/LeastSquares.v; the installed mujoco "
              "wheel 3.13.0 supplies mju_boxQP as an EXTERNAL solver (it is not the code under test; its answers are recorded and its contract checked at run time); CPython/numpy of /venv; "
              "the replay harness (driver c46_ls.py)."),
-    "assumptions": ["IEEE rounding is outside the theorems over R (and is exactly what C46_float_refuted is about)",
+    "assumptions": ["IEEE rounding is outside the theorems over R (and is exactly what C46_float_unclipped_refuted is about)",
                     "mju_boxQP is an external solver: theorems assume its contract (bounds respected, g.dx <= 0), checked on the recorded answers of the run",
                     "tie is a replay on the problems of this run with tolerance 2^-30 (scaled)"],
 }
@@ -291,6 +294,7 @@ def run(ctx):
         ctx.broken.append(("translator", str(e), ""))
         clipcand = False
     ctx.cov["support"]["candidate_clipped_before_evaluation"] = clipcand
+    unclipped_source = (clipcand is False) and not any(k == "translator" for k, _, _ in ctx.broken)
     pbs = gen_problems(ctx)
     if ctx.replay and isinstance(ctx.replay.get("case"), dict) and ctx.replay["case"].get("problem"):
         pbs = [ctx.replay["case"]["problem"]] + pbs[:2]
@@ -353,7 +357,7 @@ def run(ctx):
             if rounding:
                 viol("candidate_outside_bounds_by_rounding", pb, "every residual evaluation and the returned point inside [lo, hi]",
                      {"evaluation_outside": pt if worst else None, "outside_by": excess(pt, pb), "returned_x": rec["x"], "returned_outside": ret_out,
-                      "status": rec["status"], "n_evaluations": len(rec["evals"])}, "C46_float_refuted", sig=SIG_ROUND)
+                      "status": rec["status"], "n_evaluations": len(rec["evals"])}, "C46_float_unclipped_refuted", sig=SIG_ROUND)
             else:
                 viol("evaluation_outside_bounds", pb, "every residual evaluation and the returned point inside [lo, hi]",
                      {"evaluation_outside": pt, "outside_by": excess(pt, pb), "returned_x": rec["x"], "status": rec["status"]}, "C46_in_bounds")
@@ -415,10 +419,13 @@ def run(ctx):
                       observed={"status": res[i]["status"], "x": res[i]["x"], "trace": res[i]["trace"][:6], "n_evals": len(res[i]["evals"]), "n_qp": len(res[i]["qp"])},
                       found_input=False, theorem="replay c46",
                       note="implementation and Coq model disagree on this run (status / evaluation points / trace / mu / solver arguments), but the implementation output satisfies the oracles")
-    if not witness_reproduced and not (ctx.replay):
-        ctx.cov["support"]["witness"] = "the binary64 witness of C46_float_refuted did NOT reproduce on this tree (no evaluation outside the box)"
+    if not witness_reproduced:
+        ctx.cov["support"]["witness"] = "the binary64 witness of C46_float_unclipped_refuted does not reproduce on this tree (no evaluation outside the box)"
     else:
-        ctx.cov["support"]["witness"] = "the binary64 witness of C46_float_refuted reproduces on minimize.py of this tree"
+        ctx.cov["support"]["witness"] = "the binary64 witness of C46_float_unclipped_refuted REPRODUCES on minimize.py of this tree"
+    if unclipped_source and not witness_reproduced and not ctx.replay:
+        ctx.broken.append(("proof", "C46_float_unclipped_refuted applies to this source",
+                           "the source evaluates the candidate x + D*dx without clipping it to the bounds: the in-bounds theorem does not hold at binary64 for this variant"))
     if counts["qp_contract_violations"]:
         ctx.broken.append(("correspondence", "external solver mju_boxQP broke the contract assumed by the theorems",
                            "%d of %d recorded answers" % (counts["qp_contract_violations"], counts["qp_calls"])))
